@@ -4,7 +4,7 @@ confusions, default core and a reduced core.  Oracle: the independent legality s
 (Isa.surface): ILLEGAL => the build must fail; legal => the bytes must be the ISA encoding."""
 from collections import Counter
 from . import enc_common as E
-from .enc_common import mk, R, V, Case
+from .enc_common import mk, mk_sym, R, V, Case
 
 THEOREM_FILES = ['C04', 'C01', 'Enc', 'EncOps1', 'EncOps2', 'EncOps3', 'EncOps4', 'EncDefs']
 ASSUMPTIONS = [
@@ -80,6 +80,52 @@ def window_cases(tier):
         for s in win(0, 7) + BIG:
             yield mk(m, V(s))
 
+def symbolic_cases(tier):
+    """registers through .def aliases (all 32 in each position), values through .equ symbols and
+    compound expressions at and around the range ends"""
+    for m in E.RR + ['muls', 'movw'] + E.MULF:
+        for d in range(32):
+            for r in range(32):
+                yield mk_sym(m, R(d), R(r))
+    for m in E.SAME + E.ONE + ['ser']:
+        for d in range(32):
+            yield mk_sym(m, R(d))
+    edge8 = [-129, -128, -1, 0, 255, 256, 300, 511]
+    for m in E.IMM:
+        for d in range(32):
+            for k in edge8:
+                yield mk_sym(m, R(d), V(k))
+    edge6 = [-1, 0, 63, 64, 255, 256, 256 + 5, 319, 320]
+    for m in ('adiw', 'sbiw'):
+        for d in range(32):
+            for k in edge6:
+                yield mk_sym(m, R(d), V(k))
+    for r in range(32):
+        for k in (-1, 0, 0x3f, 0x40, 0xbf, 0xc0, 65535, 65536):
+            yield mk_sym('lds', R(r), V(k)); yield mk_sym('sts', V(k), R(r))
+            yield mk_sym('lds', R(r), V(k), core=1, dev='ATtiny20'); yield mk_sym('sts', V(k), R(r), core=1, dev='ATtiny20')
+        for a in edge6:
+            yield mk_sym('in', R(r), V(a)); yield mk_sym('out', V(a), R(r))
+        for m in E.REGBIT:
+            for b in (-1, 0, 7, 8, 256, 263):
+                yield mk_sym(m, R(r), V(b))
+        for txt, tok in E.PTR[:4]:
+            yield mk_sym('ld', R(r), (txt, tok)); yield mk_sym('st', (txt, tok), R(r))
+        yield mk_sym('lpm', R(r), ('Z+', 'iZ+'))
+    for m in E.IOBIT:
+        for a in (-1, 0, 31, 32, 255, 256, 258, 287, 288, 512):
+            for b in (-1, 0, 7, 8, 256):
+                yield mk_sym(m, V(a), V(b))
+    for m in ('rjmp', 'rcall'):
+        for d in (-2049, -2048, 2047, 2048, 65536, 65536 + 5, -65536 - 17):
+            yield mk_sym(m, V(d + 1))
+    for b in E.BRANCHES[:4]:
+        for d in (-65, -64, 63, 64, 128 + 3, 65536):
+            yield mk_sym('br' + b, V(d + 1))
+    for m in ('jmp', 'call'):
+        for k in (-1, 0, 0x10000, 0x3fffff, 0x400000):
+            yield mk_sym(m, V(k))
+
 SHAPES = {}
 for m in E.RR + ['muls', 'movw'] + E.MULF: SHAPES[m] = 'rr'
 for m in E.SAME + E.ONE + ['ser']: SHAPES[m] = 'r'
@@ -113,7 +159,7 @@ def judge_device(cases, vio):
     return [v for v in vio if not (v['source'].startswith('.device') and v['what'].startswith('valid instruction') and v['impl'].startswith('ERR'))]
 
 def run(tier, seed, model_ok):
-    cases = list(window_cases(tier)) + list(confusion_cases(tier))
+    cases = list(window_cases(tier)) + list(confusion_cases(tier)) + list(symbolic_cases(tier))
     dis, vio = E.run_enc(cases, model_ok, 'C04')
     vio = judge_device(cases, vio)
     import subprocess
@@ -121,7 +167,7 @@ def run(tier, seed, model_ok):
     illegal = None
     return {
         'evaluations': len(cases), 'distinct_nontrivial': len({c.src for c in cases}),
-        'rule': 'every mnemonic x all registers 0..31 in each register position x every value in [lo-130, hi+130] of each value field (plus the byte-wrap zone 250..330 and i64 extremes), all index forms incl. X/Y/Z displacements in the window; every mnemonic x every list of 0..3 operands over the kinds register/value/index (kind and count confusions), default core and ATtiny20; distinct = distinct source texts',
+        'rule': 'every mnemonic x all registers 0..31 in each register position x every value in [lo-130, hi+130] of each value field (plus the byte-wrap zone 250..330 and i64 extremes), all index forms incl. X/Y/Z displacements in the window; every mnemonic x every list of 0..3 operands over the kinds register/value/index (kind and count confusions), default core and ATtiny20; the register/value families again with every register written through a .def alias (all 32 in each position) and values through .equ symbols / compound expressions at the range ends; distinct = distinct source texts',
         'samples': [cases[0].src, cases[len(cases) // 3].src, cases[-1].src],
         'exhaustive': True,
         'distribution': {'cases_per_mnemonic_top': dist.most_common(10), 'mnemonics': len(dist)},
